@@ -194,7 +194,14 @@ func specCellLen(data []byte, pos int, typ byte, metadata uint16) int {
 func specCellOK(data []byte, pos int, typ byte, metadata uint16) bool {
 	return specValidMeta(typ, metadata) && pos >= 0 && pos <= len(data) &&
 		len(data)-pos >= specPrefix(typ, metadata) &&
-		len(data)-pos >= specCellLen(data, pos, typ, metadata)
+		len(data)-pos >= specCellLen(data, pos, typ, metadata) &&
+		(typ != TypeJSON || specJSONDocOK(specJSONCellDoc(data, pos, metadata)))
+}
+
+// the binary JSON document of a JSON cell: the bytes after the length prefix
+func specJSONCellDoc(data []byte, pos int, metadata uint16) []byte {
+	w := int(metadata)
+	return data[pos+w : pos+w+int(specLE(data, pos, w))]
 }
 
 // ---- value text ----
@@ -330,6 +337,10 @@ func specCellText(data []byte, pos int, typ byte, metadata uint16, uns bool) vsp
 			return vspec.Num(1, specLE(data, pos, int(metadata&0xff)))
 		}
 	}
+	if typ == TypeJSON {
+		// the document rendered as SQL text (see zz_vc_jsoncol_verif.go)
+		return specJSONDocText(specJSONCellDoc(data, pos, metadata))
+	}
 	// length-prefixed strings and blobs: the bytes after the prefix, verbatim
 	w := specPrefix(typ, metadata)
 	l := int(specLE(data, pos, w))
@@ -339,7 +350,7 @@ func specCellText(data []byte, pos int, typ byte, metadata uint16, uns bool) vsp
 // ---- contract: CellBytes ----
 
 func vc_CellBytes_requires(data []byte, pos int, typ byte, metadata uint16, isUnSignedInt bool) bool {
-	return typ != TypeJSON && specCellOK(data, pos, typ, metadata)
+	return specCellOK(data, pos, typ, metadata)
 }
 
 func vc_CellBytes_ensures_len(data []byte, pos int, typ byte, metadata uint16, isUnSignedInt bool, out []byte, n int, err error) bool {
